@@ -42,6 +42,17 @@ Section ExtLemmas.
     apply (ext_CP c0 c1 s s' E). exact H5.
   Qed.
 
+  Lemma iW13_ext : forall s s', ext s s' -> msgs s' = msgs s -> iW13 c0 c1 s -> iW13 c0 c1 s'.
+  Proof.
+    intros s s' E Hm H m Hin Hty. rewrite Hm in Hin.
+    destruct (H m Hin Hty) as (H1 & H2 & H3 & H4 & H5).
+    split; [apply (ext_LL_nonnil s s' E); exact H1|].
+    split; [rewrite (ext_LL_firstn s s' E) by lia; exact H2|].
+    split; [pose proof (ext_LL_len s s' E (m_term m)); lia|].
+    split; [rewrite (ext_LL_term_at s s' E) by lia; exact H4|].
+    apply (ext_CP c0 c1 s s' E). exact H5.
+  Qed.
+
   Lemma iK4_ext : forall s s', ext s s' -> msgs s' = msgs s -> iK4 s -> iK4 s'.
   Proof.
     intros s s' E Hm H m Hin Hty Hr. rewrite Hm in Hin.
